@@ -1,5 +1,7 @@
 import GmQuic.Model.Wake
 import GmQuic.Lemmas.Wake
+import GmQuic.Model.WakeAA
+import GmQuic.Lemmas.WakeAA
 /-!
 C16 — no wake-up is ever lost.  Property theorems only.
 
@@ -156,5 +158,47 @@ theorem open_close_wakes_all (sched : List LocalSid.Op) :
 -- non-vacuity: three tasks asleep in two directions
 example : ((run (LocalSid.proto true) [.poll 0 0 false, .poll 1 1 true, .maxStreams true 1, .poll 2 2 false, .poll 1 1 true, .poll 1 3 true]).slp.map
     (fun x => (x.t, x.w))) = [(1, 3), (2, 2), (0, 0)] := by decide
+
+/-! ### 5. `AntiAmplifier::balance` + `SendWaker` — per atomic operation, ALL interleavings of the waiter with any
+number of concurrent `on_rcvd` / `grant` / `abort` invocations (DESIGN Appendix A shape, verbatim) -/
+
+theorem aa_no_lost_wakeup (sched : List AA.Op) :
+    let s := AA.run sched
+    AA.asleep s → ¬ AA.wakePending s → (¬ AA.cond s ∨ AA.notifierMidway s) := by
+  intro s hs hw
+  have h := AA.run_inv sched
+  have hw' : s.woken = false := by
+    cases hb : s.woken with
+    | false => rfl
+    | true => exact absurd hb hw
+  have ha := h.a hs hw'
+  by_cases hc : AA.cond s
+  · right
+    have := h.b3 (Or.inr hs) hc
+    rcases this with hbit | h2 | h3
+    · have h1 := ha.1
+      change (AA.run sched).bit = true at hbit
+      rw [hbit] at h1; cases h1
+    · exact Or.inl h2
+    · exact Or.inr h3
+  · exact Or.inl hc
+
+/-- hence at quiescence (no notifier between its set and its notify) a sleeper implies the condition is false -/
+theorem aa_quiescent_sleeper_has_no_credit (sched : List AA.Op)
+    (hs : AA.asleep (AA.run sched)) (hw : ¬ AA.wakePending (AA.run sched))
+    (hq : ¬ AA.notifierMidway (AA.run sched)) : (AA.run sched).credit = 0 ∧ (AA.run sched).st = 0 := by
+  rcases aa_no_lost_wakeup sched hs hw with h | h
+  · simp only [AA.cond, not_or, Nat.not_lt, Nat.le_zero, ne_eq, Decidable.not_not] at h
+    exact h
+  · exact absurd h hq
+
+-- non-vacuity: the waiter is asleep, credit has been added, the notifier has not yet called wake_by (midway) …
+example : let s := AA.run [.waiter, .waiter, .waiter, .rcvdLoad, .waiter, .rcvdAdd 3]
+    AA.asleep s ∧ ¬ AA.wakePending s ∧ AA.cond s ∧ AA.notifierMidway s := by
+  simp only [AA.asleep, AA.wakePending, AA.cond, AA.notifierMidway]; decide
+-- … and a state where it is asleep with nothing pending and the condition false
+example : let s := AA.run [.waiter, .waiter, .waiter, .waiter]
+    AA.asleep s ∧ ¬ AA.wakePending s ∧ ¬ AA.cond s ∧ ¬ AA.notifierMidway s := by
+  simp only [AA.asleep, AA.wakePending, AA.cond, AA.notifierMidway]; decide
 
 end GmQuic.Wake
